@@ -98,4 +98,20 @@ def expectedAt (m : Sent) (n : Nat) (handed : List Nat) (i : Nat) : List Deliver
   if (List.range n).all (fun j => j = i || handed.contains j) && !handed.contains i && i < n
   then [m.delivery] else []
 
+/-- Dispatch rule of the forwarder (which forwarding threads must receive a delivered packet):
+    an Interest goes to the thread of its name (`hn`), a Data whose PIT token is one of this
+    forwarder's (6 bytes: thread id, entry id) to that thread, any other Data to the thread of every
+    prefix of its name incl. the zero-length one (`hp`, duplicate free).  "Delivered exactly once"
+    means: once per destination thread, to no other thread, never twice to the same thread; with a
+    single thread that is exactly one delivery. -/
+def destThreads (nThreads : Nat) (m : Sent) (hn : Nat) (hp : List Nat) : List Nat :=
+  if m.wire.head? = some 5 then [hn]
+  else if m.token.length = 6 then
+    (if beDec (m.token.take 2) < nThreads then [beDec (m.token.take 2)] else [])
+  else hp
+
+/-- the threads a packet was queued to are exactly the destination threads, each once -/
+def threadsOk (want got : List Nat) : Bool :=
+  got.all (fun t => got.count t == 1) && got.all want.contains && want.all got.contains
+
 end Ndn.C10
